@@ -32,6 +32,22 @@ class Obj(object):
         return '<%s>' % self.label
 
 
+_FACADE = []
+
+
+def facade_module():
+    """An importable module that binds the spelling T to something else: functions re-exported under its name
+    (f.__module__ = ...) must still resolve their annotations in their own globals."""
+    import sys
+    import types
+    if not _FACADE:
+        m = types.ModuleType('vfc11_facade')
+        m.T = Obj('T@facade')
+        sys.modules['vfc11_facade'] = m
+        _FACADE.append(m)
+    return _FACADE[0]
+
+
 def make_fn(shape, pattern, future, T, name='f'):
     """A real function whose annotated parameters / return are spelled ``T`` in globals binding T to ``T``."""
     named = [p[0] for p in shape if p[1] in (PO, POK, KWO)]
@@ -155,6 +171,30 @@ def eval_pair(o, i, pat_o, pat_i, shared, st, same_names):
         st.seen('result', (opn, o, i, pat_o, pat_i, shared, ref))
 
 
+def _unary_case(opn, fn, f, status, res, shape, pattern, future, named, V, results, st):
+    st.inc('transitions')
+    if status != 'ok':
+        results.setdefault(opn, {})[future] = ('raise', status)
+        return
+    case = {'op': opn, 'shapes': [space.to_json(shape)], 'patterns': [pattern], 'future': future}
+
+    def origin(n, opn=opn, f=f, V=V):
+        if opn.startswith('annotate') or opn.endswith('annotate') or 'annotate' in opn:
+            if named and n == named[-1][0] and 'ret' not in opn:
+                return V
+        return f
+    ret_origin = V if opn == 'annotate-ret' else f
+    probs = resolution_problems(res, origin, ret_origin)
+    if probs:
+        st.violation('annotation-resolves-outside-its-defining-context', case,
+                     {'operation': opn, 'function': '%s def f%s' % ('postponed' if future else 'eager', inspect.signature(f)),
+                      'result': str(res), 'problems': probs[:4]}, {'op': opn})
+    try:
+        results.setdefault(opn, {})[future] = ('ok', render(res))
+    except Exception as e:  # noqa
+        results.setdefault(opn, {})[future] = ('evaluated-raises', type(e).__name__, str(e)[:100])
+
+
 def eval_unary(shape, pattern, st):
     """retrieve / mask / modifiers / annotate / partial on one function, eager and postponed."""
     named = [p for p in shape if p[1] in (PO, POK, KWO)]
@@ -188,30 +228,14 @@ def eval_unary(shape, pattern, st):
                     M.kwoargs(poks[-1])(M.annotate(**{last: V})(f)))))
                 ops.append(('kwoargs-then-annotate', lambda f, last=last, V=V: sigtools.signature(
                     M.annotate(**{last: V})(M.kwoargs(poks[-1])(f)))))
-        for opn, fn in ops:
-            f = make_fn(shape, pattern, future, T)
-            status, res = alg.outcome(fn, f)
-            st.inc('transitions')
-            if status != 'ok':
-                results.setdefault(opn, {})[future] = ('raise', status)
-                continue
-            case = {'op': opn, 'shapes': [space.to_json(shape)], 'patterns': [pattern], 'future': future}
-
-            def origin(n, opn=opn, f=f, V=V):
-                if opn.startswith('annotate') or opn.endswith('annotate') or 'annotate' in opn:
-                    if named and n == named[-1][0] and 'ret' not in opn:
-                        return V
-                return f
-            ret_origin = V if opn == 'annotate-ret' else f
-            probs = resolution_problems(res, origin, ret_origin)
-            if probs:
-                st.violation('annotation-resolves-outside-its-defining-context', case,
-                             {'operation': opn, 'function': '%s def f%s' % ('postponed' if future else 'eager', inspect.signature(f)),
-                              'result': str(res), 'problems': probs[:4]}, {'op': opn})
-            try:
-                results.setdefault(opn, {})[future] = ('ok', render(res))
-            except Exception as e:  # noqa
-                results.setdefault(opn, {})[future] = ('evaluated-raises', type(e).__name__, str(e)[:100])
+        for relabel in (False, True):
+            ops_ = ops if not relabel else [(n_ + '[re-exported]', f_) for n_, f_ in ops[:4]]
+            for opn, fn in ops_:
+                f = make_fn(shape, pattern, future, T)
+                if relabel:
+                    f.__module__ = facade_module().__name__
+                status, res = alg.outcome(fn, f)
+                _unary_case(opn, fn, f, status, res, shape, pattern, future, named, V, results, st)
     for opn, by in results.items():
         if by.get(False) != by.get(True):
             st.violation('postponed-differs-from-eager-twin', {'op': opn, 'shapes': [space.to_json(shape)], 'patterns': [pattern]},
